@@ -7,7 +7,8 @@
 //	oracle `stack-vs-list` — model-free: the real stacks against a naive immutable
 //	  list-of-lists reference (the property the theorem states), key `stack:<minimised ops>`.
 //	stream `mini` — for random programs of the proved fragment (identity, constants, pipe,
-//	  comma, `.[]`, empty, `[q]`, recursive one-parameter functions, closures): the instruction
+//	  comma, `.[]`, `.name`, empty, `[q]`, error, try/catch, if, `//`, variables, reduce, foreach, object
+//	  construction in all six entry forms, recursive one-parameter functions, closures): the instruction
 //	  list the REAL compiler emits with every optimisation disabled against Model/MiniVM.lean's
 //	  `compileProg` (modulo renumbering of scope ids and registers by first appearance), and the
 //	  real outputs against the mini VM's.  Theorem tied: Gojq.C01Compile.compile_refines_spec_fragment.
